@@ -46,7 +46,7 @@ def correspondence(ctx, batch):
             if n <= 4 or rng.random() < 0.2:
                 inputs, kedges = table_inputs(n, edges)
                 stages.stage_pipeline(batch, inputs, registry, [stages.TableCmp(kedges)], parts=("merge", "replaces"))
-    for inputs, cmps in boundary_cases():
+    for inputs, cmps in list(boundary_cases()) + list(order_cases()):
         stages.stage_pipeline(batch, inputs, registry, cmps, parts=("merge", "replaces"))
         ctx.count("boundary_cases")
     for _ in range(ctx.n(80, 1500)):
@@ -71,6 +71,11 @@ def threshold_cmps(rng):
         [ModelFieldsPercentMatch(float("68") / 100)], [ModelFieldsPercentMatch(float("92") / 100)],
         [ModelFieldsPercentMatch(float("50") / 100)], [ModelFieldsPercentMatch(1.0)],
         [ModelFieldsEquals(), ModelFieldsNumberMatch(4)],
+        # every order of several comparators: each must see the original key sets
+        [ModelFieldsNumberMatch(), ModelFieldsPercentMatch()], [ModelFieldsNumberMatch(10), ModelFieldsPercentMatch(.7)],
+        [ModelFieldsNumberMatch(4), ModelFieldsEquals()], [ModelFieldsNumberMatch(8), ModelFieldsPercentMatch(.5)],
+        [ModelFieldsNumberMatch(5), ModelFieldsEquals(), ModelFieldsPercentMatch(float("80") / 100)],
+        [ModelFieldsPercentMatch(float("90") / 100), ModelFieldsNumberMatch(6), ModelFieldsEquals()],
     ])
 
 
@@ -88,6 +93,22 @@ def threshold_sample(rng):
 
 
 PERCENTS = [32, 50, 55, 56, 60, 68, 69, 70, 71, 75, 80, 90, 92, 95, 100, 33, 10, 1]
+
+
+def order_cases():
+    """pairs that satisfy NO comparator of the policy, with the later model's keys mostly or wholly inside the earlier
+    one's (12 and 9 keys sharing 7; a subset), under every order of the policy's comparators"""
+    import itertools
+    a = {"f%d" % i: 1 for i in range(12)}
+    b = {"f%d" % i: 1 for i in range(7)}
+    b.update({"g0": 1, "g1": 1})
+    sub = {"f%d" % i: 1 for i in range(6)}
+    for first, second in ((a, b), (b, a), (a, sub), (sub, a)):
+        for policy in ([ModelFieldsNumberMatch(10), ModelFieldsPercentMatch(.7)],
+                       [ModelFieldsNumberMatch(10), ModelFieldsEquals()],
+                       [ModelFieldsNumberMatch(10), ModelFieldsPercentMatch(.7), ModelFieldsEquals()]):
+            for perm in itertools.permutations(policy):
+                yield [("Root", [{"ha": first, "hb": second}])], list(perm)
 
 
 def boundary_cases():
@@ -247,7 +268,7 @@ def falsify(ctx):
                 continue
             inputs, kedges = table_inputs(n, edges)
             cases.append((inputs, [stages.TableCmp(kedges)], bool(edges)))
-    for inputs, cmps in boundary_cases():
+    for inputs, cmps in list(boundary_cases()) + list(order_cases()):
         cases.append((inputs, cmps, True))
     for _ in range(ctx.n(150, 3000)):
         cases.append(([("Root", [threshold_sample(rng)])], threshold_cmps(rng), True))
